@@ -1,6 +1,44 @@
 import slayer
-from props.scommon import scen, preempt_scenario, naive_late_root_fails_scenario
+from props.scommon import scen, preempt_scenario, naive_late_root_fails_scenario, unordered_arrivals_scenario
 """C17 - naive scheduler: whole-pool FIFO without retries or preemption (also the starter scheduler of `eudoxia init`)"""
+
+
+def library_mode(ctx):
+    """library use: an `Executor` built with its defaults and a naive `Scheduler` told `multi_operator_containers=False` -- the container mode is the
+    scheduler's parameter: every container it asks for holds exactly one operator"""
+    import logging, sys
+    from common import REPO
+    logging.disable(logging.CRITICAL)
+    if REPO not in sys.path:
+        sys.path.insert(0, REPO)
+    from eudoxia.executor import Executor
+    from eudoxia.scheduler import Scheduler
+    from eudoxia.workload.pipeline import Pipeline, Segment
+    from eudoxia.utils import Priority
+    for tps in (1, 4):
+        ex = Executor(2, 8, 64, tps)
+        sch = Scheduler(ex, scheduler_algo="naive", multi_operator_containers=False, allow_memory_overcommit=False, duration=100, ticks_per_second=tps)
+        p = Pipeline("lib", Priority.BATCH_PIPELINE)
+        prev = None
+        for _ in range(3):
+            prev = p.new_operator([prev] if prev else None)
+            prev.add_segment(Segment(baseline_cpu_seconds=2 / tps, cpu_scaling="const", memory_gb=0.5, storage_read_gb=0))
+        results, sizes = [], []
+        for t in range(12):
+            sus, asg = sch.run_one_tick(results, [p] if t == 0 else [])
+            sizes += [len(a.ops) for a in asg]
+            try:
+                results = ex.run_one_tick(sus, asg)
+            except BaseException as e:
+                sizes.append(f"executor raised {type(e).__name__}")
+                break
+        ctx.coverage["evaluations"] += 1
+        ctx.sit("library_mode_runs")
+        if any(x != 1 for x in sizes) or not sizes:
+            ctx.violations.append({"what": f"a naive Scheduler created with multi_operator_containers=False (on an Executor created with its defaults) asks for "
+                                           f"containers of {sizes} operators for a chain of three", "layer": "S", "case": {"tps": tps},
+                                   "sig": {"clause": "single-operator-mode"}})
+            return
 
 
 def run(ctx):
@@ -9,8 +47,13 @@ def run(ctx):
         yield from scen(ctx, ["naive", "template", "naive"], n)
         for i in range(max(30, n // 6)):
             yield naive_late_root_fails_scenario(ctx.seed * 7919 + i, ["naive", "template"][i % 2])
+        for i in range(max(6, n // 20)):
+            yield unordered_arrivals_scenario(ctx.seed * 7919 + i, ["naive", "template"][i % 2])
     slayer.run_scenarios_s(ctx, "C17", scenarios())
+    library_mode(ctx)
 
 
 def replay(ctx, rep):
+    if "scenario" not in rep:
+        return library_mode(ctx)
     slayer.replay_s(ctx, "C17", rep)
